@@ -35,8 +35,8 @@ var c07SSO = mkSpace("authn", []fieldDim{
 	{"Relay", []string{"", "none", "spacey"}},
 	{"ProtoB", []string{"", "post", "redirect"}},
 	{"Dest", []string{"", "absent"}},
-	{"NB", []string{"", "-1s", "now", "nofrac-", "9dig-", "-1y"}},
-	{"NOOA", []string{"", "+1us", "+1y", "nofrac+", "9dig+"}},
+	{"NB", []string{"", "-1s", "now", "nofrac-", "9dig-", "-1y", "epoch", "zero", "y1601", "y1677-", "y1677+"}},
+	{"NOOA", []string{"", "+1us", "+1y", "nofrac+", "9dig+", "max", "y2262-", "y2262+", "y2300", "y3000"}},
 	{"ACSIdx", []string{"", "0", "1"}},
 	{"Transport", []string{"", "post"}},
 	{"Sign", []string{"", "redirect-sha256", "redirect-sha1", "env-sha256", "env-sha1"}},
@@ -153,8 +153,8 @@ var c07Logout = mkSpace("logout", []fieldDim{
 	{"HTTP", world.HTTPShapes},
 	{"Session", []string{"", "two"}},
 	{"Relay", []string{"", "none"}},
-	{"NOOA", []string{"", "+1us", "+1y"}},
-	{"Instant", []string{"", "-1y", "now", "9dig-", "-1h"}},
+	{"NOOA", []string{"", "+1us", "+1y", "max", "y2262-", "y2262+", "y2300", "y3000"}},
+	{"Instant", []string{"", "-1y", "now", "9dig-", "-1h", "epoch", "y1601", "y1677-", "y1677+"}},
 	{"Issuer", []string{"", "b", "c"}},
 	{"SLO", []string{"", "none", "two", "redirect-first", "three", "query-url"}},
 	{"Dest", []string{"", "absent"}},
